@@ -866,10 +866,9 @@ Proof.
   destruct (run_stmts univ stmts s refs empty_ctx) as [[[s' refs'] c'] e] eqn:Hrun.
   assert (H0 : imports_ok (c_imports empty_ctx)) by (intros d []).
   destruct (run_stmts_imports _ _ _ _ _ _ _ _ _ Hu H0 Hrun) as [Hc Hs].
-  cbn [fst] in Hok. destruct e as [cls|]; cbn [fst ds_imports].
-  - rewrite Hs. exact Hok.
-  - intros d Hin. apply in_app_or in Hin. destruct Hin as [Hin|Hin]; [rewrite Hs in Hin; exact (Hok d Hin)|].
-    apply filter_In in Hin. exact (Hc d (proj1 Hin)).
+  cbn [fst] in Hok. destruct e as [cls|]; unfold record_imports; cbn [fst ds_imports];
+    (intros d Hin; apply in_app_or in Hin; destruct Hin as [Hin|Hin]; [rewrite Hs in Hin; exact (Hok d Hin)|];
+     apply filter_In in Hin; exact (Hc d (proj1 Hin))).
 Qed.
 (* the same with skip_unknown *)
 Lemma run_stmts_sk_imports : forall skipf univ sk stmts s refs c s' refs' c' e, pget "__gin__" univ = None ->
@@ -889,10 +888,9 @@ Proof.
   destruct (run_stmts_sk should_skip_dyn univ sk stmts s refs empty_ctx) as [[[s' refs'] c'] e] eqn:Hrun.
   assert (H0 : imports_ok (c_imports empty_ctx)) by (intros d []).
   destruct (run_stmts_sk_imports _ _ _ _ _ _ _ _ _ _ _ Hu H0 Hrun) as [Hc Hs].
-  cbn [fst] in Hok. destruct e as [cls|]; cbn [fst ds_imports].
-  - rewrite Hs. exact Hok.
-  - intros d Hin. apply in_app_or in Hin. destruct Hin as [Hin|Hin]; [rewrite Hs in Hin; exact (Hok d Hin)|].
-    apply filter_In in Hin. exact (Hc d (proj1 Hin)).
+  cbn [fst] in Hok. destruct e as [cls|]; unfold record_imports; cbn [fst ds_imports];
+    (intros d Hin; apply in_app_or in Hin; destruct Hin as [Hin|Hin]; [rewrite Hs in Hin; exact (Hok d Hin)|];
+     apply filter_In in Hin; exact (Hc d (proj1 Hin))).
 Qed.
 (* the states reached by a sequence of parse calls (each with its own skip_unknown), from a start with some
    pre-registered configurables: exactly the fold of DynReg.run *)
@@ -909,6 +907,148 @@ Theorem reachable_imports_ok : forall univ pre sr, pget "__gin__" univ = None ->
 Proof.
   intros univ pre sr Hu H. induction H as [|sr sk stmts H IH]; [intros d []|]. apply parse_call_sk_imports_ok; assumption.
 Qed.
+
+(* ------------------------------------------------------------------ *)
+(* ---- eager recording of imports (repaired parse_config): an import that took effect is recorded whatever ---- *)
+(* ---- happens to the statements after it                                                                  ---- *)
+(* ------------------------------------------------------------------ *)
+Definition dimport_key_eqb (x d : dimport) : bool :=
+  String.eqb (d_module x) (d_module d) && Bool.eqb (d_from x) (d_from d)
+  && match d_alias x, d_alias d with Some a, Some b => String.eqb a b | None, None => true | _, _ => false end.
+Lemma dimport_key_eqb_eq : forall x d, dimport_key_eqb x d = true -> x = d.
+Proof.
+  intros [m1 f1 a1] [m2 f2 a2] H. unfold dimport_key_eqb in H. cbn [d_module d_from d_alias] in H.
+  apply andb_true_iff in H. destruct H as [H Ha]. apply andb_true_iff in H. destruct H as [Hm Hf].
+  apply String.eqb_eq in Hm. apply Bool.eqb_prop in Hf. subst m2 f2.
+  destruct a1 as [a1|], a2 as [a2|]; try discriminate; [apply String.eqb_eq in Ha; subst a2|]; reflexivity.
+Qed.
+Lemma record_imports_spec : forall s imps d,
+  In d (ds_imports (record_imports s imps)) <-> In d (ds_imports s) \/ In d imps.
+Proof.
+  intros s imps d. unfold record_imports. cbn [ds_imports]. rewrite in_app_iff, filter_In. split.
+  - intros [H|[H _]]; [left|right]; exact H.
+  - intros [H|H]; [left; exact H|].
+    destruct (existsb (fun x => dimport_key_eqb x d) (ds_imports s)) eqn:E.
+    + left. apply existsb_exists in E. destruct E as [x [Hx Hk]]. rewrite <- (dimport_key_eqb_eq x d Hk). exact Hx.
+    + right. split; [exact H|]. unfold dimport_key_eqb in E. rewrite E. reflexivity.
+Qed.
+(* nothing but parse_call touches the recorded imports *)
+Lemma run_stmts_ds_imports : forall univ stmts s refs c s' refs' c' e,
+  run_stmts univ stmts s refs c = (s', refs', c', e) -> ds_imports s' = ds_imports s.
+Proof.
+  intros univ stmts. induction stmts as [|st rest IH]; intros s refs c s' refs' c' e Hrun.
+  - cbn [run_stmts] in Hrun. inversion Hrun; subst. reflexivity.
+  - destruct st as [d | scope sel param v | scope sel]; cbn [run_stmts] in Hrun.
+    + destruct (process_import univ c d) as [c1|err]; [exact (IH _ _ _ _ _ _ _ Hrun)|inversion Hrun; subst; reflexivity].
+    + destruct v as [z | scopes rsel].
+      * destruct (get_configurable (ds_reg s) c sel) as [[[reg2 full] rp2]|err];
+          [exact (IH _ _ _ _ _ _ _ Hrun)|inversion Hrun; subst; reflexivity].
+      * destruct (get_configurable (ds_reg s) c rsel) as [[[reg1 rfull] rp1]|err]; [|inversion Hrun; subst; reflexivity].
+        destruct (get_configurable reg1 c sel) as [[[reg2 full] rp2]|err];
+          [exact (IH _ _ _ _ _ _ _ Hrun)|inversion Hrun; subst; reflexivity].
+    + destruct (get_configurable (ds_reg s) c sel) as [[[reg2 full] rp2]|err];
+        [exact (IH _ _ _ _ _ _ _ Hrun)|inversion Hrun; subst; reflexivity].
+Qed.
+Lemma run_stmts_sk_ds_imports : forall skipf univ sk stmts s refs c s' refs' c' e,
+  run_stmts_sk skipf univ sk stmts s refs c = (s', refs', c', e) -> ds_imports s' = ds_imports s.
+Proof.
+  intros skipf univ sk stmts s refs c s' refs' c' e Hrun.
+  eapply (run_stmts_sk_inv skipf univ (fun s0 _ _ => ds_imports s0 = ds_imports s)); [|reflexivity|exact Hrun].
+  intros stmts0 s0 refs0 c0 s1 refs1 c1 e1 H0 Hr. rewrite (run_stmts_ds_imports _ _ _ _ _ _ _ _ _ Hr). exact H0.
+Qed.
+(* the context's list of imports only grows *)
+Lemma run_stmts_imports_grow : forall univ stmts s refs c s' refs' c' e,
+  run_stmts univ stmts s refs c = (s', refs', c', e) -> exists l, c_imports c' = c_imports c ++ l.
+Proof.
+  intros univ stmts s refs c s' refs' c' e Hrun.
+  eapply (run_stmts_ctx_inv (fun c0 => exists l, c_imports c0 = c_imports c ++ l) univ); [| |exact Hrun].
+  - intros c0 d c1 [l Hl] Hp. exists (l ++ [d]). rewrite (process_import_imports _ _ _ _ Hp), Hl, app_assoc. reflexivity.
+  - exists []. rewrite app_nil_r. reflexivity.
+Qed.
+Lemma run_stmts_sk_imports_grow : forall skipf univ sk stmts s refs c s' refs' c' e,
+  run_stmts_sk skipf univ sk stmts s refs c = (s', refs', c', e) -> exists l, c_imports c' = c_imports c ++ l.
+Proof.
+  intros skipf univ sk stmts s refs c s' refs' c' e Hrun.
+  eapply (run_stmts_sk_inv skipf univ (fun _ _ c0 => exists l, c_imports c0 = c_imports c ++ l));
+    [|exists []; rewrite app_nil_r; reflexivity|exact Hrun].
+  intros stmts0 s0 refs0 c0 s1 refs1 c1 e1 [l Hl] Hr.
+  destruct (run_stmts_imports_grow _ _ _ _ _ _ _ _ _ Hr) as [l2 Hl2]. exists (l ++ l2). rewrite Hl2, Hl, app_assoc. reflexivity.
+Qed.
+(* a run over  pre ++ post  is the run over pre, then (if it did not fail) the run over post *)
+Lemma then_run_assoc : forall r k1 k2, then_run (then_run r k1) k2 = then_run r (fun s refs c => then_run (k1 s refs c) k2).
+Proof. intros [[[s refs] c] [x|]] k1 k2; reflexivity. Qed.
+Lemma then_run_ext : forall r k1 k2, (forall s refs c, k1 s refs c = k2 s refs c) -> then_run r k1 = then_run r k2.
+Proof. intros [[[s refs] c] [x|]] k1 k2 H; [reflexivity|apply H]. Qed.
+Lemma run_stmts_sk_app : forall skipf univ sk pre post s refs c,
+  run_stmts_sk skipf univ sk (pre ++ post) s refs c =
+  then_run (run_stmts_sk skipf univ sk pre s refs c) (run_stmts_sk skipf univ sk post).
+Proof.
+  intros skipf univ sk pre post. induction pre as [|st rest IH]; intros s refs c; [reflexivity|].
+  rewrite <- app_comm_cons. destruct st as [d | scope sel param v | scope sel].
+  - rewrite !run_stmts_sk_import. destruct (process_import univ c d) as [c1|err]; [apply IH|].
+    destruct (dsk_truthy sk && String.eqb err "ModuleNotFoundError"); [apply IH|reflexivity].
+  - destruct v as [z | scopes rsel].
+    + rewrite !run_stmts_sk_bind_val. destruct (skipf sk (ds_reg s) c sel); [apply IH|].
+      rewrite then_run_assoc. apply then_run_ext. intros. apply IH.
+    + rewrite !run_stmts_sk_bind_ref. destruct (skipf sk (ds_reg s) c rsel).
+      * destruct (skipf sk (ds_reg s) c sel); [apply IH|]. rewrite then_run_assoc. apply then_run_ext. intros. apply IH.
+      * rewrite then_run_assoc. apply then_run_ext. intros s1 refs1 c1.
+        destruct (skipf sk (ds_reg s1) c1 sel); [apply IH|]. rewrite then_run_assoc. apply then_run_ext. intros. apply IH.
+  - rewrite !run_stmts_sk_block. destruct (skipf sk (ds_reg s) c sel); [apply IH|].
+    rewrite then_run_assoc. apply then_run_ext. intros. apply IH.
+Qed.
+(* what a parse call records, failed or not: what was recorded before, and the imports of the context the run ended in *)
+Theorem parse_call_sk_imports_exact : forall univ sk stmts s refs s' refs' c' e,
+  run_stmts_sk should_skip_dyn univ sk stmts s refs empty_ctx = (s', refs', c', e) ->
+  forall d, In d (ds_imports (fst (fst (parse_call_sk univ sk stmts (s, refs))))) <-> In d (ds_imports s) \/ In d (c_imports c').
+Proof.
+  intros univ sk stmts s refs s' refs' c' e Hrun d. unfold parse_call_sk. rewrite Hrun.
+  rewrite <- (run_stmts_sk_ds_imports _ _ _ _ _ _ _ _ _ _ _ Hrun).
+  destruct e as [cls|]; cbn [fst]; apply record_imports_spec.
+Qed.
+(* THE clause: the imports of every successfully processed prefix of the text are recorded, whatever the statements
+   after it do (fail or not) *)
+Theorem C19_effective_imports_recorded : forall univ sk pre post s refs s1 refs1 c1,
+  run_stmts_sk should_skip_dyn univ sk pre s refs empty_ctx = (s1, refs1, c1, None) ->
+  forall d, In d (c_imports c1) -> In d (ds_imports (fst (fst (parse_call_sk univ sk (pre ++ post) (s, refs))))).
+Proof.
+  intros univ sk pre post s refs s1 refs1 c1 Hpre d Hin.
+  destruct (run_stmts_sk should_skip_dyn univ sk (pre ++ post) s refs empty_ctx) as [[[s' refs'] c'] e] eqn:Hrun.
+  apply (proj2 (parse_call_sk_imports_exact _ _ _ _ _ _ _ _ _ Hrun d)). right.
+  rewrite run_stmts_sk_app, Hpre, then_run_none in Hrun.
+  destruct (run_stmts_sk_imports_grow _ _ _ _ _ _ _ _ _ _ _ Hrun) as [l Hl]. rewrite Hl. apply in_or_app. left. exact Hin.
+Qed.
+(* and what was recorded before the call stays recorded *)
+Theorem C19_recorded_imports_kept : forall univ sk stmts sr d,
+  In d (ds_imports (fst sr)) -> In d (ds_imports (fst (fst (parse_call_sk univ sk stmts sr)))).
+Proof.
+  intros univ sk stmts [s refs] d Hin.
+  destruct (run_stmts_sk should_skip_dyn univ sk stmts s refs empty_ctx) as [[[s' refs'] c'] e] eqn:Hrun.
+  apply (proj2 (parse_call_sk_imports_exact _ _ _ _ _ _ _ _ _ Hrun d)). left. exact Hin.
+Qed.
+
+(* the code before the repair recorded the imports once, after the last statement:
+     from __gin__ import dynamic_registration / import dmod / nosuch.fn.x = 1
+   fails at its third line with NameError and had recorded nothing, although both imports had taken effect *)
+Module OrigImports.
+  Definition feat : dimport := {| d_module := "__gin__.dynamic_registration"; d_from := true; d_alias := None |}.
+  Definition imp_dmod : dimport := {| d_module := "dmod"; d_from := false; d_alias := None |}.
+  Definition univ : list (string * pyobj) := [("dmod", PMod [("fn", PFunc 1)])].
+  Definition stmts : list dstmt := [DImport feat; DImport imp_dmod; DBind "" "nosuch.fn" "x" (DVal 1)].
+  Definition init : dstate * list ((string * string) * string * string) :=
+    ({| ds_reg := []; ds_store := []; ds_imports := []; ds_dynamic_seen := false |}, []).
+  Definition obs (r : (dstate * list ((string * string) * string * string)) * out) := (ds_imports (fst (fst r)), snd r).
+  Eval vm_compute in (obs (parse_call_sk_orig univ DSkFalse stmts init), obs (parse_call_sk univ DSkFalse stmts init)).
+  Theorem C19_orig_failed_parse_loses_imports :
+    obs (parse_call_sk_orig univ DSkFalse stmts init) = ([], OErr "NameError") /\
+    obs (parse_call_orig univ stmts init) = ([], OErr "NameError") /\
+    obs (parse_call_sk univ DSkFalse stmts init) = ([feat; imp_dmod], OErr "NameError") /\
+    obs (parse_call univ stmts init) = ([feat; imp_dmod], OErr "NameError") /\
+    (* the property instance the old code violates: the first two statements alone succeed with these imports *)
+    (let '(_, _, c, e) := run_stmts_sk should_skip_dyn univ DSkFalse [DImport feat; DImport imp_dmod] (fst init) (snd init) empty_ctx in
+     (c_imports c, e)) = ([feat; imp_dmod], None).
+  Proof. vm_compute. repeat split; reflexivity. Qed.
+End OrigImports.
 
 (* ---- the import sources of registered configurables are not in the __gin__ name space either ---- *)
 Definition hd_ok (d : dimport) : Prop := hd "" (split_dot (d_module d)) <> "__gin__".
@@ -952,25 +1092,34 @@ Proof.
   intros e d nm Hok Hs Hf. unfold src_stmt in Hf. rewrite Hs in Hf. destruct (import_source d nm) as [d' r] eqn:E.
   cbn [to_simport i_module] in Hf. rewrite (import_source_nonfeature _ _ _ _ Hok E) in Hf. discriminate.
 Qed.
+(* an entry of the new registry is an old one, or has the import statement of an old one (a re-registered object keeps
+   its import source, F22), or has an import source made from the current import *)
+Definition src_from_old (reg : list centry) (e : centry) : Prop := exists e0, In e0 reg /\ src_stmt e = src_stmt e0.
 Lemma do_one_src : forall d reg names o m reg' sel rp, do_one d reg names o m = DOk (reg', sel, rp) ->
-  forall e, In e reg' -> In e reg \/ ce_src e = Some (import_source d names).
+  forall e, In e reg' -> src_from_old reg e \/ ce_src e = Some (import_source d names).
 Proof.
   intros d reg names o m reg' sel rp H e He. unfold do_one in H.
   destruct (obj_id o) as [i|]; [|discriminate]. cbv zeta in H.
+  assert (Hentry : forall s0 m0, let en := {| ce_sel := s0; ce_obj := i; ce_method := m0;
+                      ce_src := match find_obj i reg with Some e0 => ce_src e0 | None => Some (import_source d names) end;
+                      ce_home := match find_obj i reg with Some e0 => ce_home e0 | None => ("", "") end |} in
+                    src_from_old reg en \/ ce_src en = Some (import_source d names)).
+  { intros s0 m0. cbv zeta. destruct (find_obj i reg) as [e0|] eqn:Efo; [left|right; reflexivity].
+    exists e0. split; [exact (proj1 (find_obj_Some _ _ _ Efo))|reflexivity]. }
   match type of H with context [find_sel ?s reg] => destruct (find_sel s reg) as [e0|] end.
   - destruct (Nat.eqb (ce_obj e0) i); [|discriminate]. inversion H; subst; clear H.
-    apply in_app_or in He. destruct He as [He|[<-|[]]]; [left; apply filter_In in He; exact (proj1 He)|right; reflexivity].
-  - inversion H; subst; clear H. apply in_app_or in He. destruct He as [He|[<-|[]]]; [left; exact He|right; reflexivity].
+    apply in_app_or in He. destruct He as [He|[<-|[]]]; [left; exists e; split; [apply filter_In in He; exact (proj1 He)|reflexivity]|apply Hentry].
+  - inversion H; subst; clear H. apply in_app_or in He. destruct He as [He|[<-|[]]]; [left; exists e; split; [exact He|reflexivity]|apply Hentry].
 Qed.
 Lemma register_chain_src : forall reg d names chain reg' sel rp, register_chain reg d names chain = DOk (reg', sel, rp) ->
-  forall e, In e reg' -> In e reg \/ exists nm, ce_src e = Some (import_source d nm).
+  forall e, In e reg' -> src_from_old reg e \/ exists nm, ce_src e = Some (import_source d nm).
 Proof.
   intros reg d names chain reg' sel rp H e He. rewrite register_chain_unfold in H.
   destruct (rev chain) as [|leaf rc]; [discriminate|].
   destruct (rev (removelast chain)) as [|parent rp0]; [discriminate|].
   destruct (is_func leaf && is_class parent).
   - destruct (do_one d reg (removelast names) parent false) as [[[reg1 csel] rp1]|err] eqn:Ed; [|discriminate].
-    assert (H1 : forall x, In x reg1 -> In x reg \/ exists nm, ce_src x = Some (import_source d nm)).
+    assert (H1 : forall x, In x reg1 -> src_from_old reg x \/ exists nm, ce_src x = Some (import_source d nm)).
     { intros x Hx. destruct (do_one_src _ _ _ _ _ _ _ _ Ed x Hx) as [Hl|Hr]; [left; exact Hl|right; eexists; exact Hr]. }
     destruct (obj_id leaf) as [i|]; [|discriminate]. cbv zeta in H.
     destruct (find_obj i reg1); [inversion H; subst; exact (H1 e He)|].
@@ -985,7 +1134,7 @@ Proof.
   intros reg c sel reg' full rp Htab Hreg H. destruct (c_dynamic c) eqn:Hd.
   - destruct (get_configurable_dyn_inv _ _ _ _ _ _ Hd H) as [root [d [chain [i [Ht [Hf [Hi [[e1 [_ [Hr _]]]|[Hfo Hrc]]]]]]]]].
     + subst reg'. exact Hreg.
-    + intros e He. destruct (register_chain_src _ _ _ _ _ _ _ Hrc e He) as [Hl|[nm Hs]]; [exact (Hreg e Hl)|].
+    + intros e He. destruct (register_chain_src _ _ _ _ _ _ _ Hrc e He) as [[e0 [Hin0 Heq0]]|[nm Hs]]; [rewrite Heq0; exact (Hreg e0 Hin0)|].
       eapply src_stmt_import_source_ok; [exact (Htab _ _ _ Ht)|exact Hs].
   - rewrite (get_configurable_static _ _ _ _ _ _ Hd H). exact Hreg.
 Qed.
@@ -1001,7 +1150,7 @@ Proof.
   destruct (is_func leaf && is_class parent && match find_obj i reg with None => true | Some _ => false end); [|exact Hreg].
   destruct (do_one d reg (split_dot sel) leaf false) as [[[reg1 s1] rp1]|err1] eqn:E1; [|exact Hreg].
   destruct (do_one d reg (removelast (split_dot sel)) parent false) as [[[reg2 s2] rp2]|err2]; [exact Hreg|].
-  intros e He. destruct (do_one_src _ _ _ _ _ _ _ _ E1 e He) as [Hl|Hs]; [exact (Hreg e Hl)|].
+  intros e He. destruct (do_one_src _ _ _ _ _ _ _ _ E1 e He) as [[e0 [Hin0 Heq0]]|Hs]; [rewrite Heq0; exact (Hreg e0 Hin0)|].
   eapply src_stmt_import_source_ok; [exact (Htab _ _ _ Ht)|exact Hs].
 Qed.
 Lemma run_stmts_src_ok : forall univ stmts s refs c s' refs' c' e, pget "__gin__" univ = None ->
@@ -1034,7 +1183,7 @@ Proof.
   destruct (run_stmts univ stmts s refs empty_ctx) as [[[s' refs'] c'] e] eqn:Hrun.
   assert (H0 : tab_ok empty_ctx) by (intros n root d Hg; cbn in Hg; discriminate).
   pose proof (run_stmts_src_ok _ _ _ _ _ _ _ _ _ Hu H0 Hok Hrun) as H.
-  destruct e as [cls|]; cbn [fst ds_reg]; exact H.
+  destruct e as [cls|]; unfold record_imports; cbn [fst ds_reg]; exact H.
 Qed.
 Lemma run_stmts_tab_ok : forall univ stmts s refs c s' refs' c' e, pget "__gin__" univ = None -> tab_ok c ->
   run_stmts univ stmts s refs c = (s', refs', c', e) -> tab_ok c'.
@@ -1057,8 +1206,165 @@ Proof.
   destruct (run_stmts_sk should_skip_dyn univ sk stmts s refs empty_ctx) as [[[s' refs'] c'] e] eqn:Hrun.
   assert (H0 : tab_ok empty_ctx) by (intros n root d Hg; cbn in Hg; discriminate).
   pose proof (run_stmts_sk_src_ok _ _ _ _ _ _ _ _ _ _ _ Hu H0 Hok Hrun) as H.
-  destruct e as [cls|]; cbn [fst ds_reg]; exact H.
+  destruct e as [cls|]; unfold record_imports; cbn [fst ds_reg]; exact H.
 Qed.
+(* ------------------------------------------------------------------ *)
+(* ---- F22 (repaired code): one configurable per object ---- *)
+(* ------------------------------------------------------------------ *)
+(* no object has two registrations: the inverse registry is a function ... *)
+Definition one_per_obj (reg : list centry) : Prop :=
+  forall e1 e2, In e1 reg -> In e2 reg -> ce_obj e1 = ce_obj e2 -> e1 = e2.
+(* ... and every registry entry's object maps back to that entry *)
+Lemma one_per_obj_maps_back : forall reg, one_per_obj reg -> forall e, In e reg -> find_obj (ce_obj e) reg = Some e.
+Proof.
+  intros reg H e Hin. destruct (find_obj (ce_obj e) reg) as [e'|] eqn:E.
+  - destruct (find_obj_Some _ _ _ E) as [Hin' Ho]. rewrite (H e' e Hin' Hin Ho). reflexivity.
+  - exfalso. rewrite find_obj_None in E. exact (E e Hin eq_refl).
+Qed.
+Lemma one_per_obj_snoc : forall reg x, one_per_obj reg -> (forall y, In y reg -> ce_obj y <> ce_obj x) -> one_per_obj (reg ++ [x]).
+Proof.
+  intros reg x H Hx e1 e2 H1 H2 Ho. apply in_app_or in H1. apply in_app_or in H2.
+  destruct H1 as [H1|[<-|[]]], H2 as [H2|[<-|[]]].
+  - exact (H _ _ H1 H2 Ho).
+  - exfalso. exact (Hx _ H1 Ho).
+  - exfalso. exact (Hx _ H2 (eq_sym Ho)).
+  - reflexivity.
+Qed.
+Lemma do_one_one_per_obj : forall d reg names o m reg' sel rp, one_per_obj reg ->
+  do_one d reg names o m = DOk (reg', sel, rp) -> one_per_obj reg'.
+Proof.
+  intros d reg names o m reg' sel rp Hone H.
+  destruct (do_one_shape _ _ _ _ _ _ _ _ H) as [i [entry [Hi [Hse [Hoe [Hr _]]]]]].
+  destruct (do_one_sel_spec _ _ _ _ _ _ _ _ H) as [i' [Hi' [Hsome _]]]. rewrite Hi in Hi'. injection Hi' as <-.
+  subst reg'. apply one_per_obj_snoc.
+  - intros e1 e2 H1 H2. apply Hone; [exact (proj1 (proj1 (In_remove_sel _ _ _) H1))|exact (proj1 (proj1 (In_remove_sel _ _ _) H2))].
+  - intros y Hy Ho. apply In_remove_sel in Hy. destruct Hy as [Hy Hne]. rewrite Hoe in Ho.
+    destruct (find_obj i reg) as [e0|] eqn:Efo.
+    + destruct (find_obj_Some _ _ _ Efo) as [Hin0 Ho0]. apply Hne.
+      rewrite (Hone y e0 Hy Hin0 (eq_trans Ho (eq_sym Ho0))). symmetry. apply Hsome. reflexivity.
+    + rewrite find_obj_None in Efo. exact (Efo y Hy Ho).
+Qed.
+Lemma register_chain_one_per_obj : forall reg d names chain reg' sel rp, one_per_obj reg ->
+  register_chain reg d names chain = DOk (reg', sel, rp) -> one_per_obj reg'.
+Proof.
+  intros reg d names chain reg' sel rp Hone H. rewrite register_chain_unfold in H.
+  destruct (rev chain) as [|leaf rc]; [discriminate|].
+  destruct (rev (removelast chain)) as [|parent rp0]; [discriminate|].
+  destruct (is_func leaf && is_class parent).
+  - destruct (do_one d reg (removelast names) parent false) as [[[reg1 csel] rp1]|err] eqn:Ed; [|discriminate].
+    pose proof (do_one_one_per_obj _ _ _ _ _ _ _ _ Hone Ed) as Hone1.
+    destruct (obj_id leaf) as [i|]; [|discriminate]. cbv zeta in H.
+    destruct (find_obj i reg1) eqn:Efo; [inversion H; subst; exact Hone1|].
+    match type of H with context [find_sel ?s0 reg1] => destruct (find_sel s0 reg1) end; [discriminate|].
+    inversion H; subst; clear H. apply one_per_obj_snoc; [exact Hone1|].
+    intros y Hy. cbn [ce_obj]. rewrite find_obj_None in Efo. exact (Efo y Hy).
+  - eapply do_one_one_per_obj; eauto.
+Qed.
+Theorem get_configurable_one_per_obj : forall reg c sel reg' full rp, one_per_obj reg ->
+  get_configurable reg c sel = DOk (reg', full, rp) -> one_per_obj reg'.
+Proof.
+  intros reg c sel reg' full rp Hone H. destruct (c_dynamic c) eqn:Hd.
+  - destruct (get_configurable_dyn_inv _ _ _ _ _ _ Hd H) as [root [d [chain [i [Ht [Hf [Hi [[e [_ [Hr _]]]|[Hfo Hreg]]]]]]]]].
+    + subst reg'. exact Hone.
+    + eapply register_chain_one_per_obj; eauto.
+  - rewrite (get_configurable_static _ _ _ _ _ _ Hd H). exact Hone.
+Qed.
+Lemma failed_reg_one_per_obj : forall reg c sel, one_per_obj reg -> one_per_obj (failed_reg reg c sel).
+Proof.
+  intros reg c sel Hone. destruct (failed_reg_cases reg c sel) as [Heq|[d [names [o [sel' [rp Hdo]]]]]]; [rewrite Heq; exact Hone|].
+  eapply do_one_one_per_obj; eauto.
+Qed.
+Lemma run_stmts_one_per_obj : forall univ stmts s refs c s' refs' c' e, one_per_obj (ds_reg s) ->
+  run_stmts univ stmts s refs c = (s', refs', c', e) -> one_per_obj (ds_reg s').
+Proof.
+  intros univ. apply (run_stmts_reg_inv one_per_obj univ).
+  - intros reg c sel reg' full rp Hr H. eapply get_configurable_one_per_obj; eauto.
+  - intros reg c sel Hr. apply failed_reg_one_per_obj. exact Hr.
+Qed.
+Lemma run_stmts_sk_one_per_obj : forall skipf univ sk stmts s refs c s' refs' c' e, one_per_obj (ds_reg s) ->
+  run_stmts_sk skipf univ sk stmts s refs c = (s', refs', c', e) -> one_per_obj (ds_reg s').
+Proof.
+  intros skipf univ sk stmts s refs c s' refs' c' e Hone Hrun.
+  eapply (run_stmts_sk_inv skipf univ (fun s0 _ _ => one_per_obj (ds_reg s0))); [|exact Hone|exact Hrun].
+  intros stmts0 s0 refs0 c0 s1 refs1 c1 e1 H0 Hr. eapply run_stmts_one_per_obj; eauto.
+Qed.
+Theorem parse_call_sk_one_per_obj : forall univ sk stmts sr, one_per_obj (ds_reg (fst sr)) ->
+  one_per_obj (ds_reg (fst (fst (parse_call_sk univ sk stmts sr)))).
+Proof.
+  intros univ sk stmts [s refs] Hone. unfold parse_call_sk.
+  destruct (run_stmts_sk should_skip_dyn univ sk stmts s refs empty_ctx) as [[[s' refs'] c'] e] eqn:Hrun.
+  pose proof (run_stmts_sk_one_per_obj _ _ _ _ _ _ _ _ _ _ _ Hone Hrun) as H.
+  destruct e as [cls|]; unfold record_imports; cbn [fst ds_reg]; exact H.
+Qed.
+(* after any sequence of parse calls (each with its own skip_unknown, failed or not) from a start in which no object is
+   registered twice: no object has two registrations, and every registry entry's object maps back to that entry *)
+Theorem C19_one_configurable_per_object : forall univ pre sr, one_per_obj pre -> reachable univ pre sr ->
+  one_per_obj (ds_reg (fst sr)) /\
+  (forall e, In e (ds_reg (fst sr)) -> find_obj (ce_obj e) (ds_reg (fst sr)) = Some e).
+Proof.
+  intros univ pre sr Hpre H.
+  assert (Hone : one_per_obj (ds_reg (fst sr))).
+  { induction H as [|sr sk stmts H IH]; [exact Hpre|]. apply parse_call_sk_one_per_obj. exact IH. }
+  split; [exact Hone|apply one_per_obj_maps_back; exact Hone].
+Qed.
+
+(* ---- the code before the repair ---- *)
+Module OrigRespelled.
+  Definition feat : dimport := {| d_module := "__gin__.dynamic_registration"; d_from := true; d_alias := None |}.
+  Definition imp_from : dimport := {| d_module := "pkgb.util"; d_from := true; d_alias := None |}.   (* from pkgb import util *)
+  Definition imp_as : dimport := {| d_module := "pkgb.util"; d_from := false; d_alias := Some "u" |}. (* import pkgb.util as u *)
+  Definition cls : pyobj := PClass 1 [("meth", PFunc 2); ("meth2", PFunc 3)].
+  Definition univ : list (string * pyobj) := [("pkgb", PMod [("util", PMod [("C", cls)])])].
+  Definition s0 : dstate := {| ds_reg := []; ds_store := []; ds_imports := []; ds_dynamic_seen := false |}.
+  Definition ctx_of (imps : list dimport) : dctx :=
+    let '(_, _, c, _) := run_stmts univ (map DImport imps) s0 [] empty_ctx in c.
+  Definition c1 := ctx_of [feat; imp_from].       (* file 1 *)
+  Definition c2 := ctx_of [feat; imp_as].         (* file 2 *)
+  Definition regs (r : dres (list centry * string * list (string * string))) :=
+    match r with DOk (reg, full, _) => inl (map (fun e => (ce_sel e, ce_obj e)) reg, full) | DErr cls => inr cls end.
+  (* file 1:  util.C.x = 1   then file 2:  u.C.meth.x = 5 *)
+  Definition after1 (gc : list centry -> dctx -> string -> dres (list centry * string * list (string * string))) : list centry :=
+    match gc [] c1 "util.C" with DOk (reg, _, _) => reg | DErr _ => [] end.
+  Eval vm_compute in (regs (get_configurable_orig (after1 get_configurable_orig) c2 "u.C.meth"),
+                      regs (get_configurable (after1 get_configurable) c2 "u.C.meth")).
+  Theorem C19_orig_class_registered_twice :
+    one_per_obj [] /\
+    regs (get_configurable_orig [] c1 "util.C") = inl ([("pkgb.util.C", 1)], "pkgb.util.C") /\
+    (* code before the repair: the class (object 1) ends up with two configurables *)
+    regs (get_configurable_orig (after1 get_configurable_orig) c2 "u.C.meth")
+      = inl ([("pkgb.util.C", 1); ("pkgb.u.C", 1); ("pkgb.u.C.meth", 2)], "pkgb.u.C.meth") /\
+    (forall reg full rp, get_configurable_orig (after1 get_configurable_orig) c2 "u.C.meth" = DOk (reg, full, rp) -> ~ one_per_obj reg) /\
+    (* repaired code: the class keeps its selector, the method lives under it *)
+    regs (get_configurable (after1 get_configurable) c2 "u.C.meth")
+      = inl ([("pkgb.util.C", 1); ("pkgb.util.C.meth", 2)], "pkgb.util.C.meth").
+  Proof.
+    split; [intros e1 e2 []|]. split; [vm_compute; reflexivity|]. split; [vm_compute; reflexivity|].
+    split; [|vm_compute; reflexivity].
+    intros reg full rp H Hone. vm_compute in H. injection H as Hreg _ _. subst reg.
+    assert (Heq : {| ce_sel := "pkgb.util.C"; ce_obj := 1; ce_method := false;
+                     ce_src := Some (imp_from, "C"); ce_home := ("", "") |} =
+                  {| ce_sel := "pkgb.u.C"; ce_obj := 1; ce_method := false;
+                     ce_src := Some (imp_as, "C"); ce_home := ("", "") |}).
+    { apply Hone; [left; reflexivity|right; left; reflexivity|reflexivity]. }
+    discriminate Heq.
+  Qed.
+  (* file 1:  util.C.meth2.x = 7   then file 2:  u.C.meth.x = 5  (valid in file 2: u.C.meth resolves through its imports) *)
+  Definition after1m (gc : list centry -> dctx -> string -> dres (list centry * string * list (string * string))) : list centry :=
+    match gc [] c1 "util.C.meth2" with DOk (reg, _, _) => reg | DErr _ => [] end.
+  Eval vm_compute in (regs (get_configurable_orig (after1m get_configurable_orig) c2 "u.C.meth"),
+                      regs (get_configurable (after1m get_configurable) c2 "u.C.meth")).
+  Theorem C19_orig_valid_method_statement_rejected :
+    provides c2 "u.C.meth" = true /\
+    regs (get_configurable_orig [] c1 "util.C.meth2") = inl ([("pkgb.util.C", 1); ("pkgb.util.C.meth2", 3)], "pkgb.util.C.meth2") /\
+    (* code before the repair: the class is registered again under pkgb.u.C, which _find_registered_methods rejects because
+       meth2 is registered under pkgb.util.C *)
+    regs (get_configurable_orig (after1m get_configurable_orig) c2 "u.C.meth") = inr "ValueError" /\
+    (* repaired code: accepted; one registration per object *)
+    regs (get_configurable (after1m get_configurable) c2 "u.C.meth")
+      = inl ([("pkgb.util.C.meth2", 3); ("pkgb.util.C", 1); ("pkgb.util.C.meth", 2)], "pkgb.util.C.meth").
+  Proof. vm_compute. repeat split; reflexivity. Qed.
+End OrigRespelled.
+
 (* canonical_feature holds in every reachable state: C19_header_feature_first and the resolution theorems need no
    hypothesis about the recorded imports or the registry beyond reachability *)
 Theorem reachable_canonical_feature : forall univ pre sr, pget "__gin__" univ = None -> reg_src_ok pre ->
@@ -1262,3 +1568,11 @@ Print Assumptions Findings.C19_orig_header_not_reparsable_reserved_gin.
 Print Assumptions Findings.C19_header_reparsable_reserved_gin.
 Print Assumptions Findings.C19_orig_feature_statement_realiased.
 Print Assumptions Findings.C19_feature_statement_kept.
+Print Assumptions parse_call_sk_imports_exact.
+Print Assumptions C19_effective_imports_recorded.
+Print Assumptions C19_recorded_imports_kept.
+Print Assumptions OrigImports.C19_orig_failed_parse_loses_imports.
+Print Assumptions get_configurable_one_per_obj.
+Print Assumptions C19_one_configurable_per_object.
+Print Assumptions OrigRespelled.C19_orig_class_registered_twice.
+Print Assumptions OrigRespelled.C19_orig_valid_method_statement_rejected.
